@@ -176,4 +176,142 @@ theorem alias_common_fields (desc : J) (latest : String) (tags : J) (base rel : 
 example : (aliasEntries ["6-31G**", "6-31G(d,p)"] (fun _ o => .arr (o.map .str))).map (fun e => (e.1, match e.2 with | .arr [.str s] => s | _ => ""))
     = [("6-31g_st__st_", "6-31G(d,p)"), ("6-31g(d,p)", "6-31G**")] := by decide
 
+/-! ## the whole index: `create_metadata_file` as one statement -/
+
+def addStep (acc : Dict) (e : String × J) : Except PyErr Dict :=
+  if Dict.has acc e.1 then throw PyErr.runtime else pure (acc ++ [e])
+
+open BSE.Compose in
+def metaStep (dir : Dir) (tables : List String) (acc : Dict) (m : String) : Except PyErr Dict := do
+  let es ← entriesOf dir tables m
+  es.foldlM addStep acc
+
+open BSE.Compose in
+theorem createMetadata_eq (dir : Dir) (paths : List String) :
+    createMetadata dir paths = (do
+      let all ← (paths.filter isMeta).foldlM (metaStep dir (paths.filter isTable)) []
+      pure (sortDict all)) := rfl
+
+/-- adding the records of one metadata file to the index: refused if a name is there already, appended otherwise -/
+theorem addEntries_spec (es : List (String × J)) : ∀ (acc acc' : Dict),
+    es.foldlM addStep acc = .ok acc' →
+    acc' = acc ++ es ∧ (∀ e ∈ es, Dict.has acc e.1 = false) ∧ (es.map (·.1)).Nodup := by
+  induction es with
+  | nil =>
+    intro acc acc' h
+    simp only [List.foldlM_nil, pure, Except.pure, Except.ok.injEq] at h
+    subst h
+    simp
+  | cons e rest ih =>
+    intro acc acc' h
+    simp only [List.foldlM_cons, bind, Except.bind] at h
+    by_cases hh : Dict.has acc e.1 = true
+    · simp [addStep, hh, throw, throwThe, MonadExceptOf.throw] at h
+    · have hh' : Dict.has acc e.1 = false := by simpa using hh
+      simp only [addStep, hh', Bool.false_eq_true, if_false, pure, Except.pure] at h
+      obtain ⟨h1, h2, h3⟩ := ih (acc ++ [e]) acc' h
+      refine ⟨by rw [h1]; simp, ?_, ?_⟩
+      · intro x hx
+        rcases List.mem_cons.1 hx with rfl | hx'
+        · exact hh'
+        · have := h2 x hx'
+          simp only [Dict.has, List.any_append, Bool.or_eq_false_iff] at this
+          exact this.1
+      · rw [List.map_cons, List.nodup_cons]
+        refine ⟨?_, h3⟩
+        intro hmem
+        obtain ⟨x, hx, hxe⟩ := List.mem_map.1 hmem
+        have := h2 x hx
+        simp only [Dict.has, List.any_append, List.any_cons, List.any_nil, Bool.or_false, Bool.or_eq_false_iff] at this
+        have h4 := this.2
+        rw [hxe] at h4
+        simp at h4
+
+open BSE.Compose in
+theorem metaFold_spec (dir : Dir) (tables : List String) (ms : List String) : ∀ (acc acc' : Dict),
+    ms.foldlM (metaStep dir tables) acc = .ok acc' → (acc.map (·.1)).Nodup →
+    (∀ e, e ∈ acc' ↔ e ∈ acc ∨ ∃ m ∈ ms, ∃ es, entriesOf dir tables m = .ok es ∧ e ∈ es) ∧ (acc'.map (·.1)).Nodup := by
+  induction ms with
+  | nil =>
+    intro acc acc' hf hn
+    simp only [List.foldlM_nil, pure, Except.pure, Except.ok.injEq] at hf
+    subst hf
+    exact ⟨by simp, hn⟩
+  | cons m rest ih =>
+    intro acc acc' hf hn
+    simp only [List.foldlM_cons, bind, Except.bind] at hf
+    cases hstep : metaStep dir tables acc m with
+    | error e => simp [hstep] at hf
+    | ok acc1 =>
+      simp only [hstep] at hf
+      unfold metaStep at hstep
+      simp only [bind, Except.bind] at hstep
+      cases hes : entriesOf dir tables m with
+      | error e => simp [hes] at hstep
+      | ok es =>
+        simp only [hes] at hstep
+        obtain ⟨h1, h2, h3⟩ := addEntries_spec es acc acc1 hstep
+        have hn1 : (acc1.map (·.1)).Nodup := by
+          rw [h1, List.map_append, List.nodup_append]
+          refine ⟨hn, h3, ?_⟩
+          intro a ha b hb hab
+          obtain ⟨x, hx, rfl⟩ := List.mem_map.1 ha
+          obtain ⟨y, hy, rfl⟩ := List.mem_map.1 hb
+          have := h2 y hy
+          simp only [Dict.has, List.any_eq_false] at this
+          exact this x hx (by simpa using hab)
+        obtain ⟨i1, i2⟩ := ih acc1 acc' hf hn1
+        refine ⟨?_, i2⟩
+        intro e
+        rw [i1 e, h1]
+        constructor
+        · rintro (he | ⟨m', hm', es', hes', he'⟩)
+          · rcases List.mem_append.1 he with he | he
+            · exact Or.inl he
+            · exact Or.inr ⟨m, by simp, es, hes, he⟩
+          · exact Or.inr ⟨m', by simp [hm'], es', hes', he'⟩
+        · rintro (he | ⟨m', hm', es', hes', he'⟩)
+          · exact Or.inl (List.mem_append.2 (Or.inl he))
+          · rcases List.mem_cons.1 hm' with rfl | hm''
+            · rw [hes] at hes'
+              cases hes'
+              exact Or.inl (List.mem_append.2 (Or.inr he'))
+            · exact Or.inr ⟨m', hm'', es', hes', he'⟩
+
+theorem sortDict_perm (l : Dict) : (sortDict l).Perm l := by
+  induction l with
+  | nil => exact List.Perm.refl _
+  | cons a as ih =>
+    show (insertKV a (sortDict as)).Perm (a :: as)
+    have hins : ∀ (kv : String × J) (l : Dict), (insertKV kv l).Perm (kv :: l) := by
+      intro kv l
+      induction l with
+      | nil => exact List.Perm.refl _
+      | cons y ys ihy =>
+        unfold insertKV
+        split
+        · exact List.Perm.refl _
+        · exact (List.Perm.cons y ihy).trans (List.Perm.swap kv y ys)
+    exact (hins a _).trans (List.Perm.cons a ih)
+
+open BSE.Compose in
+/-- **the index, as one statement.**  If `create_metadata_file` returns, the index holds exactly the records that the
+metadata files of the directory contribute (for each: one record per listed name, `alias_*` above; versions = its table files,
+`index_versions_are_table_files`), nothing else, no name twice — in sorted order; a name that occurs twice makes it raise. -/
+theorem createMetadata_spec (dir : Dir) (paths : List String) (d : Dict) (h : createMetadata dir paths = .ok d) :
+    (∀ e, e ∈ d ↔ ∃ m ∈ paths.filter isMeta, ∃ es, entriesOf dir (paths.filter isTable) m = .ok es ∧ e ∈ es)
+    ∧ (d.map (·.1)).Nodup := by
+  rw [createMetadata_eq] at h
+  simp only [bind, Except.bind] at h
+  cases hall : (paths.filter isMeta).foldlM (metaStep dir (paths.filter isTable)) [] with
+  | error e => simp [hall] at h
+  | ok all =>
+    simp only [hall, pure, Except.pure, Except.ok.injEq] at h
+    subst h
+    obtain ⟨k1, k2⟩ := metaFold_spec dir _ _ [] all hall (by simp)
+    refine ⟨?_, (List.Perm.nodup_iff ((sortDict_perm all).map (·.1))).2 k2⟩
+    intro e
+    rw [mem_sortDict, k1 e]
+    simp
+
 end BSE.Props.C11
